@@ -287,6 +287,27 @@ impl Cluster {
                 }
                 let new_rounds = std::mem::take(&mut o.new_rounds);
                 drop(o);
+                if self.sc.bounds.crash_first_proposer {
+                    if let Some(l) = self.sc.bounds.lagger {
+                        for ev in &tap {
+                            if let crate::net::TapKind::Frame { phase: crate::net::Phase::Delivered, data, .. } = &ev.kind {
+                                if ev.to_listener && ev.svc == SVC_CONSENSUS && ev.dst() == l && ev.t_us >= self.sc.bounds.heal_us && ev.src() < self.sc.n && ev.src() != l {
+                                    if let Some(consensus::ConsensusMessage::Propose(b)) = crate::obs::safe_deserialize::<consensus::ConsensusMessage>(data) {
+                                        if b.author == self.names[ev.src()] {
+                                            let v = ev.src();
+                                            let now = self.net.now_us();
+                                            let all: u64 = (0..self.sc.n).map(crate::net::bit).sum::<u64>() | (0xffff_ffffu64 << 32);
+                                            self.net.add_rule(crate::net::Rule { t0_us: now, t1_us: crate::net::FOREVER, src: crate::net::bit(v), dst: all & !crate::net::bit(v), bidir: true, svc_mask: 7, kind: crate::net::RuleKind::Block, reply_only: false, label: "crash".into() });
+                                            self.obs.lock().unwrap().ext.crashed[v] = Some(now);
+                                            self.sc.bounds.crash_first_proposer = false;
+                                            break;
+                                        }
+                                    }
+                                }
+                            }
+                        }
+                    }
+                }
                 if self.sc.profile == "C15" {
                     for ev in &tap {
                         if let crate::net::TapKind::Frame { phase: crate::net::Phase::Written, data, .. } = &ev.kind {
